@@ -50,6 +50,7 @@ ATTR_ANN = {"a": "int", "b": "str"}
 D1 = [["Desc one."]]
 D2 = [["Desc one.", "line two."]]
 D3 = [["Para one."], ["para two."]]
+D4 = [["Desc one.", ":class:`Item` role first on the line.", "``:param x:`` quoted field syntax."]]  # continuation lines that begin with a colon
 
 
 def _item(name=None, ann=None, desc=D1, default=None, sig=None):
@@ -71,6 +72,7 @@ def menu():
         add(kind, st, items=[_item("x", "list[int]", D2), _item("y", None)])
         add(kind, "gn", items=[_item("x", None, D3)])
         add(kind, "n", items=[_item("x", "int", D1, default="3")])
+        add(kind, st, items=[_item("x", "int", D4), _item("y", "str")])
         # a default (written, or taken from the signature) followed by an item that has none: nothing may carry over to the next item
         add(kind, "n", items=[_item("y", "str", D1, default="'b'"), _item("x", None)])
         add(kind, "gn", items=[_item("y", None), _item("x", None, D2)])
